@@ -4,6 +4,9 @@ import MosnVerif.Gen.Resource
 import MosnVerif.Gen.ProxyRetry
 import MosnVerif.Gen.ProxyError
 import MosnVerif.Gen.ProxyReset
+import MosnVerif.Gen.ProxyReply
+import MosnVerif.Gen.ProxyTerminate
+import MosnVerif.Gen.ProxyTimers
 /-!
 # The shared downstream machine (DESIGN.md §5) — model of one downstream request of MOSN's proxy core
 
@@ -31,6 +34,18 @@ the state), `retryState.retry/shouldRetry/reset` (same), `doRetryCheck`'s decisi
 Increase/Decrease`, the two conditions of `onUpstreamReset` (may a reset still be retried; reset the client or answer it:
 `Gen.ProxyReset`), `types.ConvertReasonToCode`, `streamResetReasonToResponseFlag`, the pool-failure→reason map, the
 `api` status codes and response flags.
+
+Growth (proxy3).  Body provenance: every stored response part (`downstreamRespHeaders / DataBuf / Trailers`) carries the
+token of the answer it belongs to (`Tok`: upstream attempt k, a local reply, nothing); the downstream sender writes the
+stored parts, and nothing is stored any more once response headers went downstream (`Lemmas/Downstream/Prov.lean`), so the
+tokens of the state are the tokens of what the client receives; which local-reply paths clear / replace / keep the held data and
+trailers is regenerated (`Gen.ProxyReply`).  Stream generation: the pooled `downStream` object gets a new `ID` per request
+(`Cfg.gen`); `TerminateStream` is the regenerated step program (`Gen.ProxyTerminate`: the refusal tests in program order,
+the claim of the response slot, split at the reset of the upstream request), run for a handler of this request
+(`terminate`), for a kept handler of an EARLIER request whose object this request reuses (`terminateStale`), and with an
+in-flight upstream response landing between the claim and the reply (`terminateRaced`).  Timers: which timers `setupRetry`
+stops is regenerated (`Gen.ProxyTimers`); `gtGen` counts the global timers armed so far
+(`utils.NewTimer` in `onUpstreamRequestSent`).
 
 What is not modelled: stream filters other than the asynchronous terminate (C14 adds `Model/FilterChain.lean`),
 header contents (C17), buffer reuse (`reuseBuffer`/`giveStream`), statistics other than the active gauges, panics.
@@ -64,7 +79,15 @@ structure Cfg where
   disableRetry : Bool := false  -- variable proxy_disable_retry
   maxRetries : Nat := 0         -- breaker threshold max_retries   (0 = unlimited)
   maxRequests : Nat := 0        -- breaker threshold max_requests  (0 = unlimited)
+  gen : Nat := 1                -- downStream.ID of this request (a pooled object gets a fresh ID per request)
   deriving Repr, Inhabited
+
+/-- whose answer a stored response part / a downstream sender call belongs to -/
+inductive Tok where
+  | none                 -- nothing stored
+  | att (k : Nat)        -- the response of upstream attempt k
+  | loc                  -- a reply MOSN generated itself (hijack: route / host / reset / timeout code, direct response, TerminateStream)
+  deriving DecidableEq, Repr, Inhabited, Hashable
 
 /-- observable events, one constructor per trace token of `harness/px` -/
 inductive Ev where
@@ -133,6 +156,12 @@ structure S where
   failNext : List PoolFail := []    -- scripted outcomes of the next NewStream calls (FIFO)
   hostsGone : Bool := false
   globalExpired : Bool := false     -- globalTimeoutExpired
+  -- provenance of the stored response parts (what the downstream sender writes)
+  hTok : Tok := .none               -- the answer downstreamRespHeaders belongs to
+  dTok : Tok := .none               -- … downstreamRespDataBuf
+  tTok : Tok := .none               -- … downstreamRespTrailers
+  -- the global timer
+  gtGen : Nat := 0                  -- global timers armed so far (utils.NewTimer in onUpstreamRequestSent)
   -- ledger
   retries : Int := 0                -- Retries().Cur()
   requests : Int := 0               -- Requests().Cur()
@@ -156,6 +185,8 @@ inductive Label where
   | downReset (reason : Reason)
   | connClose
   | terminate (code : Nat)
+  | terminateStale (g : Nat) (code : Nat)                          -- TerminateStream on a kept handler created with downStream.ID = g
+  | terminateRaced (code : Nat) (k : Nat) (hasData hasTrailers : Bool)  -- TerminateStream with an in-flight response of client stream k landing inside it
   deriving DecidableEq, Repr, Inhabited, Hashable
 
 def emit (s : S) (e : Ev) : S := { s with trace := s.trace ++ [e] }
@@ -253,9 +284,35 @@ def rsReset (c : Cfg) (s : S) : S :=
 def cleanUp (c : Cfg) (s : S) : S :=
   { rsReset c s with perTry := false, global := false }
 
-/-- `sendHijackReply` / `sendHijackReplyWithBody` -/
+/-- the stream holds response data / trailers (`downstreamRespDataBuf != nil` / `downstreamRespTrailers != nil`) -/
+def heldData (s : S) : Bool := match s.resp with | some r => r.hasData | none => false
+def heldTrailers (s : S) : Bool := match s.resp with | some r => r.hasTrailers | none => false
+
+/-- presence of a response part after a reply path with effect `e` on it: `mine` = this answer has such a part -/
+def applyEff (e : Gen.ProxyReply.Eff) (mine held : Bool) : Bool :=
+  match e with
+  | .clear => false
+  | .set => mine
+  | .keep => held
+
+/-- … and whose part it is then -/
+def effTok (e : Gen.ProxyReply.Eff) (mine : Bool) (me old : Tok) : Tok :=
+  match e with
+  | .clear => .none
+  | .set => if mine then me else .none
+  | .keep => old
+
+/-- regenerated: what `sendHijackReply` (no body) / `sendHijackReplyWithBody` (non-empty body) do to the held data / trailers -/
+def hijackDataEff (body : Bool) : Gen.ProxyReply.Eff := if body then Gen.ProxyReply.hijackBodyData else Gen.ProxyReply.hijackData
+def hijackTrailersEff (body : Bool) : Gen.ProxyReply.Eff := if body then Gen.ProxyReply.hijackBodyTrailers else Gen.ProxyReply.hijackTrailers
+
+/-- `sendHijackReply` / `sendHijackReplyWithBody`: the reply headers are this local reply's; the held data / trailers are
+cleared, replaced by the reply's own, or left as they are — as the regenerated effects say -/
 def sendHijack (s : S) (code : Nat) (body : Bool) : S :=
-  { s with respCode := code, statusVar := some code, resp := some ⟨body, false⟩, direct := true }
+  { s with respCode := code, statusVar := some code,
+           resp := some ⟨applyEff (hijackDataEff body) body (heldData s), applyEff (hijackTrailersEff body) false (heldTrailers s)⟩,
+           direct := true, hTok := .loc,
+           dTok := effTok (hijackDataEff body) body .loc s.dTok, tTok := effTok (hijackTrailersEff body) false .loc s.tTok }
 
 /-- the body of `downStream.cleanStream()` after the CAS on `downstreamCleaned` was won: reset the upstream request
 unless its processing is done (or one-way), clean up timers and the retry slot, count down the active gauge, write
@@ -294,7 +351,8 @@ def setupRetry (c : Cfg) (s : S) (eos : Bool) : S × Bool :=
   if setupRetryChecksExpiry && s.globalExpired then (s, false) else
   let s := { s with setupRetry := true }
   let s := if !eos then resetUpstream c s else s
-  ({ s with perTry := false, urr := false }, true)
+  ({ s with perTry := s.perTry && !Gen.ProxyTimers.setupRetryStopsPerTry, urr := false,
+            global := s.global && !Gen.ProxyTimers.setupRetryStopsGlobal }, true)
 
 /-- the fields of `downStream` the regenerated conditions of `onUpstreamReset` may read -/
 def resetFlags (c : Cfg) (s : S) : Gen.ProxyReset.Flags where
@@ -390,7 +448,8 @@ def setupPerReqTimeout (c : Cfg) (s : S) : S := { s with perTry := s.perTry || c
 are armed when an upstream request exists and the request is two-way -/
 def onUpstreamRequestSent (c : Cfg) (s : S) : S :=
   let arm := s.up.isSome && !c.oneway
-  { s with reqSent := true, perTry := s.perTry || (arm && c.tryTimeout), global := s.global || arm }
+  { s with reqSent := true, perTry := s.perTry || (arm && c.tryTimeout), global := s.global || arm,
+           gtGen := if arm then s.gtGen + 1 else s.gtGen }
 
 /-- outcome of the next `ConnectionPool.NewStream`: a scripted failure, a natural overflow, or admission -/
 def poolOutcome (c : Cfg) (s : S) : Option PoolFail :=
@@ -591,7 +650,9 @@ def upResp (c : Cfg) (s : S) (k code : Nat) (d t : Bool) : S :=
     { destroyStream c s k with
         statusVar := some code,        -- the codec publishes the status before handing the frame over
         urr := s.urr || acc, respCode := if acc then code else s.respCode,
-        resp := if acc then some ⟨d, t⟩ else s.resp, notify := s.notify || acc }
+        resp := if acc then some ⟨d, t⟩ else s.resp, notify := s.notify || acc,
+        hTok := if acc then .att k else s.hTok, dTok := if acc then (if d then .att k else .none) else s.dTok,
+        tTok := if acc then (if t then .att k else .none) else s.tTok }
   | none => s
 
 /-- the head of a streamed response for client stream k arrives: `upstreamRequest.OnReceive` with the body still in
@@ -606,7 +667,9 @@ def upRespS (c : Cfg) (s : S) (k code : Nat) (d t : Bool) : S :=
     if s.urr then s else
     let acc := !(processDone s || s.setupRetry)
     { s with statusVar := some code, urr := s.urr || acc, respCode := if acc then code else s.respCode,
-             resp := if acc then some ⟨d, t⟩ else s.resp, notify := s.notify || acc }
+             resp := if acc then some ⟨d, t⟩ else s.resp, notify := s.notify || acc,
+             hTok := if acc then .att k else s.hTok, dTok := if acc then (if d then .att k else .none) else s.dTok,
+             tTok := if acc then (if t then .att k else .none) else s.tTok }
   | none => s
 
 /-- the streamed body of client stream k ended: the codec destroys the stream (the pool gives back its slot).  Only a
@@ -669,19 +732,45 @@ def parked (s : S) : Bool := s.running && s.phase == .WaitNotify && !s.notify
 
 /-- asynchronous `TerminateStream(code)` of a receiver-filter handler (`streamfilters.go`), called by another goroutine
 while the worker is parked waiting for the upstream — the asynchronous-filter use; a call racing with a running worker
-is not modelled (the label is a no-op then).  It is refused when response headers are stored
-(`downstreamRespHeaders != nil`: also the stale headers of a try that was retried because of its status), when the
-stream is cleaned, or when the CAS on `upstreamResponseReceived` is lost.  Otherwise: both timers stopped, the
-upstream request reset (as the timeout callbacks do), the DownStreamTerminate flag, a local reply with `code`, wake-up. -/
-def terminateL (c : Cfg) (s : S) (code : Nat) : S :=
-  if !parked s then s
-  else if s.resp.isSome then s
-  else if s.cleaned then s
-  else if s.urr then s
-  else
-    { resetUpstream c s with
-        urr := true, perTry := false, global := false, flags := s.flags ||| DownStreamTerminate,
-        respCode := code, statusVar := some code, resp := some ⟨false, false⟩, direct := true, notify := true }
+is not modelled (the label is a no-op then).  What the call does is the REGENERATED step program
+`Gen.ProxyTerminate` over these operations: it is refused when response headers are stored (`downstreamRespHeaders != nil`:
+also the stale headers of a try that was retried because of its status), when the stream is cleaned, when the handler
+was created for another generation of the pooled object (`hid` ≠ `Cfg.gen`), or when the response slot
+`upstreamResponseReceived` is taken; otherwise: the slot is claimed, both timers stopped (not forgotten), the upstream
+request reset (as the timeout callbacks do), the DownStreamTerminate flag, a local reply with `code`, wake-up. -/
+def termOps (c : Cfg) (hid code : Nat) : Gen.ProxyTerminate.Ops S where
+  hasResponseHeaders := fun s => s.resp.isSome
+  cleaned := fun s => s.cleaned
+  idMatches := fun _ => hid == c.gen
+  responseReceived := fun s => s.urr
+  setResponseReceived := fun s => { s with urr := true }
+  noReuse := id
+  stopGlobalTimer := fun s => { s with global := false }
+  stopPerTryTimer := fun s => { s with perTry := false }
+  resetUpstream := resetUpstream c
+  flagTerminate := fun s => orFlag s DownStreamTerminate
+  hijack := fun s => sendHijack s code false
+  notify := sendNotify
+
+/-- `upstreamRequest.OnReceive` of the current upstream request for a response frame of client stream k that was already
+past the codec's stream-table lookup when the proxy reset the stream (in flight): nothing is left to destroy; the frame
+is accepted under the conditions of every response.  The codec of this frame carries the status in the frame (the
+status variable is not republished). -/
+def lateRecv (s : S) (k : Nat) (d t : Bool) : S :=
+  if curStream s != some k || streamLive s k then s else
+  let acc := !(processDone s || s.setupRetry) && !s.urr
+  { s with urr := s.urr || acc, respCode := if acc then s.statusVar.getD s.respCode else s.respCode,
+           resp := if acc then some ⟨d, t⟩ else s.resp, notify := s.notify || acc,
+           hTok := if acc then .att k else s.hTok, dTok := if acc then (if d then .att k else .none) else s.dTok,
+           tTok := if acc then (if t then .att k else .none) else s.tTok }
+
+/-- `TerminateStream(code)` on a handler created with `downStream.ID = hid`, with `between` interleaved inside its reset
+of the upstream request -/
+def terminateG (c : Cfg) (s : S) (hid code : Nat) (between : S → S) : S :=
+  if !parked s then s else (Gen.ProxyTerminate.terminateStream (termOps c hid code) between s).1
+
+/-- the label `terminate`: a handler of this request, nothing interleaves -/
+def terminateL (c : Cfg) (s : S) (code : Nat) : S := terminateG c s c.gen code id
 
 def step (c : Cfg) (s : S) : Label → S
   | .work => work c s
@@ -696,6 +785,8 @@ def step (c : Cfg) (s : S) : Label → S
   | .downReset r => downResetL c s r
   | .connClose => connClose s
   | .terminate code => terminateL c s code
+  | .terminateStale g code => terminateG c s g code id
+  | .terminateRaced code k d t => terminateG c s c.gen code (fun s => lateRecv s k d t)
 
 /-- initial state for ambient load (slots held by other requests of the cluster) -/
 def init (ambRetries ambRequests : Nat) : S := { retries := ambRetries, requests := ambRequests, upActive := 0 }
